@@ -160,3 +160,27 @@ def arm(desc, model_lookup):
             return NoFault()
         return ModuleRaise(mod, desc["phase"], desc.get("n", 1), exc)
     raise ValueError(kind)
+
+
+class SilentArmed:
+    """An aten-level and a line-level injector armed far beyond the end of the call: they intercept
+    everything and fire nothing (transparency self-test)."""
+
+    kind = "silent"
+    fired = False
+    points = 0
+
+    def __init__(self):
+        self.a = AtenRaise(10**12)
+        self.l = LineRaise(10**12)
+
+    def __enter__(self):
+        self.l.__enter__()
+        self.a.__enter__()
+        return self
+
+    def __exit__(self, *exc):
+        self.a.__exit__(*exc)
+        self.l.__exit__(*exc)
+        self.points = self.a.points + self.l.points
+        return False
